@@ -66,13 +66,16 @@ def main():
     if budget_hit:
         rac.sections["pairs"]["exhaustive"] = False
     rac.section("expressions", "expressions of identical structure over independently built equal refs are equal and hash "
-                "equally; structurally different ones are unequal", "26 expression shapes (incl. pairs that differ only in parts with colliding hashes), all pairs")
+                "equally; structurally different ones are unequal", "34 expression shapes (incl. pairs that differ only in parts with colliding hashes, and sign-normalised spellings of one value), all pairs")
     shapes = ["r['a'] + r['b']", "r['b'] + r['a']", "r['a'] - 1", "1 - r['a']", "-r['a']", "abs(r['a'])", "r['a'] * r['b']",
               "r['a'] ** 2", "r['n']['x'] + 1", "r['n'].x + 1", "(r['a'] + 1) * 2", "r['a'] + (1 * 2)",
               # structurally different expressions whose parts have COLLIDING hashes (hash(-1) == hash(-2), 1 == 1.0 == True)
               "r['l'][-1] * r['a']", "r['l'][-2] * r['a']", "r['a'] * -1", "r['a'] * -2", "-r['l'][-1]", "-r['l'][-2]",
               "round(r['a'], -1)", "round(r['a'], -2)", "r['a'] + 1.0", "r['a'] + True", "abs(r['l'][-1])", "abs(r['l'][-2])",
-              "r['a'] ** -1", "r['a'] ** -2"]
+              "r['a'] ** -1", "r['a'] ** -2",
+              # different structure, same value: must not be confused by a prettier printed form
+              "r['a'] + (-3)", "r['a'] - 3", "r['a'] - (-3)", "r['a'] + 3", "r['a'] + (-0.5)", "r['a'] - 0.5",
+              "(-3) + r['a']", "r['a'] + -3.0"]
     E1 = [eval(s, dict(r=r1)) for s in shapes]
     E2 = [eval(s, dict(r=r2)) for s in shapes]
     for i, j in itertools.product(range(len(shapes)), repeat=2):
